@@ -147,31 +147,22 @@ func H_C04_fee() {
 	if mustRefuse {
 		return
 	}
-	// credits: in list order, to the decoded recipients, entries that round to zero credit nothing
-	j := 0
-	for i := 0; i < n; i++ {
-		if verif.ZEq(exp[i], verif.ZInt(0)) {
-			continue
+	// credits: every recipient ends up with exactly the sum of the entries that name it (entries rounding to zero add
+	// nothing); how the payments are batched or ordered is not pinned by the property
+	for _, r := range []sdk.AccAddress{feeR1, feeR2} {
+		want := verif.ZInt(0)
+		for i := 0; i < n; i++ {
+			if string(rcp[i]) == string(r) {
+				want = verif.ZAdd(want, exp[i])
+			}
 		}
-		if j >= len(l.sends) {
-			verif.Assert(false, "every-non-zero-entry-is-credited")
-			return
-		}
-		s := l.sends[j]
-		j++
-		c := verif.ZOf(s.amt)
-		if kind[i] == kBps {
-			// relational spec of floor(A*bps/10000): 10000*c <= A*bps < 10000*(c+1)
-			prod := verif.ZMul(zA, verif.ZU64(uint64(bps[i])))
-			verif.Assert(verif.ZLe(verif.ZMul(verif.ZInt(10000), c), prod) && verif.ZLt(prod, verif.ZMul(verif.ZInt(10000), verif.ZAdd(c, verif.ZInt(1)))), "bps-credit-is-floor-of-A-times-bps-over-10000")
-		} else {
-			verif.Assert(verif.ZEq(c, exp[i]), "fixed-credit-is-the-stated-amount")
-		}
-		verif.Assert(s.to == string(rcp[i]), "credit-goes-to-the-entry-recipient")
+		verif.Assert(verif.ZEq(verif.ZOf(l.Bal(r, "uusdc")), want), "recipient-is-credited-the-sum-of-its-entries")
+	}
+	for _, s := range l.sends {
 		verif.Assert(s.from == string(core.ModuleAddress), "credit-is-paid-by-the-orbiter-account")
 		verif.Assert(s.denom == "uusdc", "credit-in-the-transfer-denom")
+		verif.Assert(s.to == string(feeR1) || s.to == string(feeR2), "only-named-recipients-are-credited")
 	}
-	verif.Assert(j == len(l.sends), "no-extra-credits")
 	verif.Assert(verif.ZEq(verif.ZOf(ta.DestinationAmount()), verif.ZSub(zA, total)), "forwarded-amount-is-A-minus-fees")
 	verif.Assert(ta.DestinationAmount().IsPositive(), "forwarded-amount-positive")
 	verif.Assert(ta.SourceAmount().Equal(A), "source-amount-untouched")
